@@ -2,9 +2,9 @@
    Only restatements of lemmas proved in coq/Proofs/ about the model functions of
    coq/Model/Sim.v / SimState.v (hand-written from the C++ named in each file; tied
    to /repo by the correspondence check on every run). *)
-From Coq Require Import List ZArith Lia Bool.
+From Coq Require Import List ZArith Lia Bool Sorted.
 From RecordUpdate Require Import RecordSet.
-From Sim Require Import Map Variant Current Kernel Queue Net Pcap SimState Sim RegistryProofs SockProofs QueueProofs.
+From Sim Require Import Map Variant Current Kernel Queue Net Pcap SimState Sim RegistryProofs SockProofs QueueProofs ResolverProofs.
 Import ListNotations.
 Import RecordSetNotations.
 Local Open Scope Z_scope.
@@ -52,3 +52,63 @@ Theorem C14_repairs_in_place :
 Proof. split; reflexivity. Qed.
 Print Assumptions C14_repairs_in_place.
 
+
+(* ---- over whole histories of lookups, completions and cancels (Proofs/ResolverProofs.v) ---- *)
+Theorem C14_queue_is_sorted_by_completion_time_in_every_history :
+  forall evs, Forall ev_ok evs -> forall q, tsorted q -> tsorted (fold_left rq_step evs q).
+Proof. exact queue_is_always_sorted. Qed.
+Print Assumptions C14_queue_is_sorted_by_completion_time_in_every_history.
+
+Theorem C14_the_head_is_the_next_to_complete :
+  forall evs l rest, Forall ev_ok evs ->
+  fold_left rq_step evs [] = l :: rest -> forall x, In x rest -> l_time l <= l_time x.
+Proof. exact head_is_the_next_to_complete. Qed.
+Print Assumptions C14_the_head_is_the_next_to_complete.
+
+Theorem C14_no_operation_reorders_queued_lookups :
+  forall q e,
+  match e with
+  | RHostEv now lat ec eps h => exists l, rq_step q e = q ++ [l] /\ l_h l = h /\ l_ec l = ec /\ l_eps l = eps
+  | RLitEv now eps h => exists a b l, q = a ++ b /\ rq_step q e = a ++ l :: b /\ l_h l = h /\ l_time l = now + 1000
+  | RPopEv => q = [] \/ exists l, q = l :: rq_step q e
+  | RCancelEv => rq_step q e = []
+  end.
+Proof. exact step_keeps_the_order_of_queued_lookups. Qed.
+Print Assumptions C14_no_operation_reorders_queued_lookups.
+
+Theorem C14_history_example :
+  map l_time (fold_left rq_step [RHostEv 0 5000 0 [] 1; RLitEv 10 [] 2; RHostEv 20 3000 0 [] 3; RLitEv 30 [] 4; RPopEv] []) = [1030; 5000; 8000].
+Proof. exact rq_example. Qed.
+Print Assumptions C14_history_example.
+
+(* rq_host / rq_lit / rq_pop are what the resolver of the model computes *)
+Theorem C14_resolve_host_is_rq_host :
+  forall cx r id port h w,
+  d17_resolver_back (cv cx) = true -> d25_resolver_order (cv cx) = true ->
+  let he := mget (mkHost 100000000 EC_HOST_NOT_FOUND []) (w_hosts w) id in
+  r_queue (get_rslv (fst (rslv_resolve cx r (RHost id) port h w)) r) =
+    rq_host (cnow cx) (h_lat he) (h_ec he) (map (fun a => {| e_addr := a; e_port := port |}) (h_addrs he)) h
+            (r_queue (get_rslv w r)).
+Proof. exact resolve_host_is_rq_host. Qed.
+Print Assumptions C14_resolve_host_is_rq_host.
+
+Theorem C14_resolve_literal_is_rq_lit :
+  forall cx r a port h w, d25_resolver_order (cv cx) = true ->
+  r_queue (get_rslv (fst (rslv_resolve cx r (RLit a) port h w)) r) =
+    rq_lit (cnow cx) [{| e_addr := a; e_port := port |}] h (r_queue (get_rslv w r)).
+Proof. exact resolve_literal_is_rq_lit. Qed.
+Print Assumptions C14_resolve_literal_is_rq_lit.
+
+Theorem C14_completion_pops_the_head_exactly_once :
+  forall now r w l rest,
+  r_queue (get_rslv w r) = l :: rest -> l_time l <= now ->
+  r_queue (get_rslv (fst (rslv_on_lookup now r Success w)) r) = rq_pop (r_queue (get_rslv w r)) /\
+  snd (rslv_on_lookup now r Success w) = Some (l_h l, lookup_args l (l_ec l), match rest with [] => false | _ => true end).
+Proof. exact on_lookup_is_rq_pop. Qed.
+Print Assumptions C14_completion_pops_the_head_exactly_once.
+
+Theorem C14_an_early_timer_completes_nothing :
+  forall now r w l rest, r_queue (get_rslv w r) = l :: rest -> now < l_time l ->
+  fst (rslv_on_lookup now r Success w) = w.
+Proof. exact early_timer_completes_nothing. Qed.
+Print Assumptions C14_an_early_timer_completes_nothing.
